@@ -748,11 +748,23 @@ class Condition(ConditionLike):
                 f"{self.callable.kwargs!r} cannot be written in JSON form."
             )
 
-        out = {key: spec_val}
+        out = {key: _arg_to_json_like(spec_val)}
         if "shared_data" in kwargs:
             return out, kwargs["shared_data"]
         else:
             return out
+
+
+def _arg_to_json_like(arg, nested=False):
+    """Write `DataPath` arguments as data path specs, as `from_spec` reads them: the
+    argument itself, or the items of a list/mapping of arguments."""
+    if isinstance(arg, valida.datapath.DataPath):
+        return arg.to_spec()
+    elif isinstance(arg, dict) and not nested:
+        return {k: _arg_to_json_like(v, nested=True) for k, v in arg.items()}
+    elif isinstance(arg, (list, tuple)) and not nested:
+        return [_arg_to_json_like(v, nested=True) for v in arg]
+    return arg
 
 
 class FilterDatumType(enum.Enum):
